@@ -392,6 +392,9 @@ func c08Run(c *core.Ctx, k c08Case) {
 
 var c08Offsets = []int64{0, 1, -1, 1e9, -1e9, 59e9, -59e9, 60e9, -60e9, 61e9, -61e9}
 
+// number of fixed boundary instants at the head of c08Instants' result
+const c08FixedInstants = 8 * 11
+
 func c08Instants(c *core.Ctx, n int) []int64 {
 	var r []int64
 	// every kind of boundary: multiples of 60 s and 120 s (odd and even minutes), ± offsets
@@ -446,10 +449,11 @@ func init() {
 			skews := []int64{0, 1, 1e9, 59e9, 60e9 - 1, 60e9, 60e9 + 1, 61e9, 119e9, 120e9, 121e9, 179e9, 180e9, 239e9, 240e9 - 1, 240e9, 241e9, 300e9, 3600e9}
 			pw := hp()
 			nsk := 0
-			for _, t := range inst {
+			for ti, t := range inst {
 				for _, d := range skews {
-					// all boundary instants x all skews in thorough; a seeded sample in quick
-					if !c.Thorough() && c.Rand.Intn(12) != 0 {
+					// every fixed boundary instant x every skew in both tiers; for the random instants all
+					// skews in thorough and a seeded sample in quick
+					if ti >= c08FixedInstants && !c.Thorough() && c.Rand.Intn(12) != 0 {
 						continue
 					}
 					for _, sgn := range []int64{1, -1} {
